@@ -23,7 +23,12 @@ RULE = ("random compositions of depth 1 and 2 over {ensemble(mean/median/min/max
         "stacking} with recording leaf doubles and recording NaiveForecaster(last/mean) leaves; series "
         "of 4-10 points on consecutive integer times (several origins), relative horizons inside 1..3, "
         "0-3 updates (consecutive and overlapping batches, update_params True/False), forecast taken "
-        "after fit and after every update; plus pipelines over the real Detrender / Deseasonalizer "
+        "after fit and after every update; histories on ONE composite object: fit (+updates) as first "
+        "configured, one part reconfigured in place at any depth (nested set_params, component "
+        "replaced by set_params(name=new), component list reassigned), fit again (+updates), "
+        "compared with the composition as configured NOW; in ~30% of the histories the horizon is "
+        "(also) handed over at predict (none / another one at fit, changing from predict to predict; "
+        "a stacking forecaster keeps the one of its fit); plus pipelines over the real Detrender / Deseasonalizer "
         "(oracle only). non-trivial = composite ran without error, forecast not constant zero and "
         "at least one inner event recorded; distinct = distinct canonical JSON case")
 TRUSTED = [
@@ -326,8 +331,8 @@ class _RefLeaf:
     def update(self, y, up):
         self.e.update(y, update_params=up)
 
-    def predict(self):
-        return self.e.predict()
+    def predict(self, fh=None):
+        return self.e.predict(fh)
 
 
 class _RefEns:
@@ -345,9 +350,9 @@ class _RefEns:
         for m in self.ms:
             m.update(y, up)
 
-    def predict(self):
+    def predict(self, fh=None):
         import pandas as pd
-        ps = [m.predict() for m in self.ms]
+        ps = [m.predict(fh) for m in self.ms]
         return pd.Series([_agg(self.agg, [float(p.iloc[i]) for p in ps])
                           for i in range(len(ps[0]))], index=ps[0].index)
 
@@ -377,8 +382,8 @@ class _RefPipe:
             yt = t.transform(yt)
         self.f.update(yt, up)
 
-    def predict(self):
-        yp = self.f.predict()
+    def predict(self, fh=None):
+        yp = self.f.predict(fh)
         for t, s in reversed(list(zip(self.ts, self.skip))):
             if not s:
                 yp = t.inverse_transform(yp)
@@ -397,8 +402,8 @@ class _RefMux:
     def update(self, y, up):
         self.m.update(y, up)
 
-    def predict(self):
-        return self.m.predict()
+    def predict(self, fh=None):
+        return self.m.predict(fh)
 
 
 class _RefStack:
@@ -431,7 +436,8 @@ class _RefStack:
         if len(y):
             self.cut = int(y.index[-1])
 
-    def predict(self):
+    def predict(self, fh=None):
+        # the horizon of a stacking forecaster is the one of its fit (generated: fh None or equal)
         import numpy as np
         import pandas as pd
         X = np.column_stack([m.predict().values for m in self.ms])
@@ -453,10 +459,12 @@ def _series(t0, vals):
 
 
 def _history(obj, case, is_ref):
-    """fit+predict, then update+predict per batch; returns the list of steps"""
+    """fit+predict, then update+predict per batch; returns the list of steps.  `case` is any dict
+    with t0 / y / fh / ups (the case itself, or its "pre" phase)"""
     steps = []
     y = _series(case["t0"], case["y"])
-    fh = list(case["fh"])
+    fh = None if case["fh"] is None else list(case["fh"])
+    pf = case.get("pfh") or [None] * (1 + len(case["ups"]))
 
     def snap(p):
         tr = list(_LOG)
@@ -466,18 +474,18 @@ def _history(obj, case, is_ref):
     del _LOG[:]
     if is_ref:
         obj.fit(y, fh)
-        steps.append(snap(obj.predict()))
+        steps.append(snap(obj.predict(pf[0])))
     else:
         obj.fit(y, fh=fh)
-        steps.append(snap(obj.predict()))
+        steps.append(snap(obj.predict(pf[0])))
         steps[-1]["cutoff"] = int(obj.cutoff)
-    for (t0, vals, up) in case["ups"]:
+    for i, (t0, vals, up) in enumerate(case["ups"]):
         b = _series(t0, vals)
         if is_ref:
             obj.update(b, bool(up))
         else:
             obj.update(b, update_params=bool(up))
-        steps.append(snap(obj.predict()))
+        steps.append(snap(obj.predict(pf[i + 1])))
         if not is_ref:
             steps[-1]["cutoff"] = int(obj.cutoff)
     return steps
@@ -486,18 +494,122 @@ def _history(obj, case, is_ref):
 _ERRS = (ValueError, TypeError, NotImplementedError, KeyError, IndexError, AttributeError,
          ZeroDivisionError)
 
+_LEAF_PARAMS = {"rec": [("g", "g"), ("a", "a"), ("k", "k")],
+                "naive": [("g", "g"), ("strategy", "strategy"), ("wl", "window_length")]}
+
+
+def _tkey(x):
+    return (x["t"], bool(x.get("skip")), bool(x.get("upd")))
+
+
+def _diff(s0, s1, prefix, acc):
+    """the set_params assignments (nested `name__param=value` where the part keeps its class,
+    `name=new estimator` otherwise) that turn a composite configured as s0 into s1; False when the
+    part itself has to be replaced"""
+    t = s1["t"]
+    if s0["t"] != t:
+        return False
+    if t in _LEAF_PARAMS:
+        for k, p in _LEAF_PARAMS[t]:
+            if s0[k] != s1[k]:
+                acc[prefix + p] = s1[k]
+        return True
+    if t == "pipe":
+        if len(s0["ts"]) != len(s1["ts"]):
+            return False
+        for i, (x0, x1) in enumerate(zip(s0["ts"], s1["ts"])):
+            if x0 == x1:
+                continue
+            if _tkey(x0) == _tkey(x1) and x1["t"] == "aff":
+                for k, v0, v1 in (("g", x0["g"], x1["g"]), ("an", x0["a"][0], x1["a"][0]),
+                                  ("ad", x0["a"][1], x1["a"][1]), ("b", x0["b"], x1["b"]),
+                                  ("tg", x0["tg"], x1["tg"])):
+                    if v0 != v1:
+                        acc["%st%d__%s" % (prefix, i, k)] = v1
+            else:
+                acc["%st%d" % (prefix, i)] = build_transformer(x1)
+        kids = [("f", s0["f"], s1["f"])]
+    else:
+        if len(s0["ms"]) != len(s1["ms"]):
+            return False
+        if t == "ens" and s0["agg"] != s1["agg"]:
+            acc[prefix + "aggfunc"] = s1["agg"]
+        if t == "mux" and s0["sel"] != s1["sel"]:
+            acc[prefix + "selected_forecaster"] = "m%d" % s1["sel"]
+        if t == "stack" and s0["g"] != s1["g"]:
+            acc[prefix + "final_regressor__g"] = s1["g"]
+        kids = [("m%d" % i, a, b) for i, (a, b) in enumerate(zip(s0["ms"], s1["ms"]))]
+    for name, c0, c1 in kids:
+        if c0 == c1:
+            continue
+        sub = {}
+        if _diff(c0, c1, prefix + name + "__", sub):
+            acc.update(sub)
+        else:
+            acc[prefix + name] = build(c1)
+    return True
+
+
+def reconfigure(obj, s0, s1, mode):
+    """bring the SAME composite object from configuration s0 to s1 through the public parameter
+    interface: `nested` = minimal nested set_params, `replace` = every changed direct component
+    replaced by a new estimator (set_params(<name>=new)), `assign` = the component list attribute
+    reassigned"""
+    t = s1["t"]
+    acc = {}
+    if mode == "nested" and _diff(s0, s1, "", acc):
+        if acc:
+            obj.set_params(**acc)
+        return
+    if mode == "replace" and s0["t"] == t and t != "pipe" and len(s0["ms"]) == len(s1["ms"]):
+        top = {}
+        _diff(dict(s0, ms=s1["ms"]), s1, "", top)          # the composite's own parameters
+        for i, (c0, c1) in enumerate(zip(s0["ms"], s1["ms"])):
+            if c0 != c1:
+                top["m%d" % i] = build(c1)
+        if top:
+            obj.set_params(**top)
+        return
+    if mode == "replace" and s0["t"] == t == "pipe" and len(s0["ts"]) == len(s1["ts"]):
+        top = {}
+        for i, (x0, x1) in enumerate(zip(s0["ts"], s1["ts"])):
+            if x0 != x1:
+                top["t%d" % i] = build_transformer(x1)
+        if s0["f"] != s1["f"]:
+            top["f"] = build(s1["f"])
+        if top:
+            obj.set_params(**top)
+        return
+    # assign: a freshly built list of components put on the same object
+    new = build(s1)
+    if type(new) is not type(obj):
+        raise AssertionError("reconfiguration keeps the composite's class")
+    for k, v in new.get_params(deep=False).items():
+        setattr(obj, k, v)
+
 
 def run_impl(case):
     import warnings
     warnings.simplefilter("ignore")
     out = {}
+    pre = case.get("pre")
     try:
-        out["impl"] = _history(build(case["spec"]), case, False)
+        if pre:
+            obj = build(pre["spec"])
+            out["pre_impl"] = _history(obj, pre, False)
+            reconfigure(obj, pre["spec"], case["spec"], pre["mode"])
+        else:
+            obj = build(case["spec"])
+        out["impl"] = _history(obj, case, False)
     except _ERRS as e:
+        out.pop("impl", None)
         out["impl_err"] = "%s: %s" % (type(e).__name__, str(e)[:200])
     try:
+        if pre:
+            out["pre_ref"] = _history(ref(pre["spec"]), pre, True)
         out["ref"] = _history(ref(case["spec"]), case, True)
     except _ERRS as e:
+        out.pop("ref", None)
         out["ref_err"] = "%s: %s" % (type(e).__name__, str(e)[:200])
     del _LOG[:]
     return out
@@ -650,8 +762,18 @@ def oracle(case, out):
         return "composite-raised-where-parts-compose: %s" % out["impl_err"]
     if "ref_err" in out:
         return "composite-accepted-where-parts-raise: %s" % out["ref_err"]
-    for i, (a, b) in enumerate(zip(out["impl"], out["ref"])):
-        what = "after fit" if i == 0 else "after update %d" % i
+    if case.get("pre"):
+        r = _compare(case["pre"], out["pre_impl"], out["pre_ref"], "")
+        if r:
+            return r
+        return _compare(case, out["impl"], out["ref"],
+                        "same object reconfigured (%s) and fitted again, " % case["pre"]["mode"])
+    return _compare(case, out["impl"], out["ref"], "")
+
+
+def _compare(case, impl, refsteps, pfx):
+    for i, (a, b) in enumerate(zip(impl, refsteps)):
+        what = pfx + ("after fit" if i == 0 else "after update %d" % i)
         ta, tb = a["trace"], b["trace"]
         for j in range(max(len(ta), len(tb))):
             ea = ta[j] if j < len(ta) else None
@@ -771,6 +893,119 @@ def _gen_ups(rng, end, allow_overlap=True):
     return ups
 
 
+def _mut_leaf(rng, tags, leaf, n):
+    r = rng.random()
+    if r < 0.2:                                            # another kind of leaf altogether
+        new = _gen_leaf(rng, tags, n)
+        if rng.random() < 0.5:
+            new["g"] = leaf["g"]
+        return new
+    new = dict(leaf)
+    if leaf["t"] == "rec":
+        while (new["a"], new["k"]) == (leaf["a"], leaf["k"]):
+            new["a"] = rng.choice([0, 1, 2, -1, 3])
+            new["k"] = rng.choice([0, 1, 2, -1])
+    elif leaf["strategy"] == "last":
+        new.update(strategy="mean", wl=rng.choice([None, 1, 2, 3]))
+    elif rng.random() < 0.5:
+        new.update(strategy="last", wl=None)
+    else:
+        new["wl"] = rng.choice([w for w in [None, 1, 2, 3] if w != leaf["wl"]])
+    return new
+
+
+def _mutate(rng, tags, spec, n):
+    """the same composition with one part configured differently (a parameter of a leaf or of a
+    transformer, an own parameter of a composite, or a part exchanged), at any depth"""
+    import copy
+    s = copy.deepcopy(spec)
+    t = s["t"]
+    if t in ("rec", "naive"):
+        return _mut_leaf(rng, tags, s, n)
+    if t == "pipe":
+        if s["ts"] and rng.random() < 0.5:
+            i = rng.randrange(len(s["ts"]))
+            x = s["ts"][i]
+            r = rng.random()
+            if r < 0.3:
+                x["b"] = rng.choice([v for v in [0, 1, 3, -2, 5] if v != x["b"]])
+            elif r < 0.6:
+                x["a"] = rng.choice([v for v in [[1, 1], [2, 1], [4, 1], [-2, 1], [1, 2]]
+                                     if v != x["a"]])
+            elif r < 0.75:
+                x["tg"] = 1 - x["tg"]
+            elif r < 0.9:
+                x["skip"] = not x["skip"]
+            else:
+                s["ts"][i] = _gen_aff(rng, tags)
+        else:
+            s["f"] = _mutate(rng, tags, s["f"], n)
+        return s
+    r = rng.random()
+    if t == "ens" and r < 0.2:
+        s["agg"] = rng.choice([a for a in AGGS if a != s["agg"]])
+        return s
+    if t == "stack" and r < 0.1:
+        s["g"] = tags.new()
+        return s
+    if t == "mux":
+        i = s["sel"] if r < 0.8 or len(s["ms"]) == 1 else rng.choice(
+            [j for j in range(len(s["ms"])) if j != s["sel"]])
+        if r >= 0.8 and rng.random() < 0.5:
+            s["sel"] = i                                   # ... and the selection moves to it
+    else:
+        i = rng.randrange(len(s["ms"]))
+    s["ms"][i] = _mutate(rng, tags, s["ms"][i], n)
+    return s
+
+
+def _gen_pfh(rng, spec, fh, nups):
+    """horizons handed over at predict: (fit horizon or None, per step None = predict() or a
+    relative horizon).  A stacking forecaster anywhere keeps the horizon of its fit."""
+    pool = [None, None, fh] if _has(spec, "stack") else [None, [1], [2], [3], [1, 2], [2, 3],
+                                                         [1, 3], [1, 2, 3], [1, 2, 3, 4], fh]
+    pfh = [rng.choice(pool) for _ in range(1 + nups)]
+    fit_fh = fh
+    if not _has(spec, "stack") and rng.random() < 0.3:
+        fit_fh = None
+        if pfh[0] is None:
+            pfh[0] = fh
+    return fit_fh, pfh
+
+
+def _gen_reconf(rng, i, tier):
+    """ONE composite object: fitted (and possibly updated) as configured first, then a part of it
+    is reconfigured in place through the parameter interface, then it is fitted again and updated;
+    the case's own spec / data are those of the second phase"""
+    tags = _Tags()
+    n = rng.randint(5, 9)
+    kind = ["mux", "ens", "pipe", "mux", "stack"][i % 5]
+    depth = 1 if i % 2 == 0 else 2
+    spec0 = _gen_spec(rng, tags, depth, n, kind=kind)
+    spec = _mutate(rng, tags, spec0, n)
+    fh = sorted(rng.sample([1, 2, 3], rng.choice([1, 2, 2, 3])))
+    fh0 = fh if rng.random() < 0.5 else sorted(rng.sample([1, 2, 3], rng.choice([1, 2])))
+    if _has(spec, "stack") or _has(spec0, "stack"):
+        # a forecaster that REQUIRES fh at fit refuses a second fit with another horizon (base class
+        # rule of _RequiredForecastingHorizonMixin, not a matter of composition): same horizon
+        fh0 = fh
+        n = max(n, 2 * fh[-1] + 3)
+    t0 = rng.choice([0, 0, 5, -3])
+    y = _gen_values(rng, n)
+    same = rng.random() < 0.5
+    pre = {"spec": spec0, "mode": rng.choice(["nested", "nested", "replace", "assign"]),
+           "t0": t0 if same else rng.choice([0, 5, 10]), "y": list(y) if same else
+           _gen_values(rng, n), "fh": fh0}
+    pre["ups"] = _gen_ups(rng, pre["t0"] + n - 1)[:rng.choice([0, 0, 1, 2])]
+    c = {"kind": "reconf-" + kind, "depth": depth, "spec": spec, "t0": t0, "y": y, "fh": fh,
+         "ups": _gen_ups(rng, t0 + n - 1)[:2], "pre": pre}
+    if rng.random() < 0.3:
+        pre["fh"], pre["pfh"] = _gen_pfh(rng, spec0, pre["fh"], len(pre["ups"]))
+    if rng.random() < 0.3:
+        c["fh"], c["pfh"] = _gen_pfh(rng, spec, fh, len(c["ups"]))
+    return c
+
+
 def gen_cases(rng, tier):
     cases = []
     total = 330 if tier == "quick" else 3000
@@ -788,6 +1023,13 @@ def gen_cases(rng, tier):
         cases.append({"kind": kind, "depth": depth, "spec": spec, "t0": t0,
                       "y": _gen_values(rng, n), "fh": fh,
                       "ups": _gen_ups(rng, t0 + n - 1)})
+        if i % 10 in (3, 4, 8):
+            # horizon handed over at predict (differs from the one at fit / from predict to predict)
+            c = cases[-1]
+            c["fh"], c["pfh"] = _gen_pfh(rng, spec, fh, len(c["ups"]))
+    # refit of the same object after a part of it was reconfigured in place
+    for i in range(100 if tier == "quick" else 900):
+        cases.append(_gen_reconf(rng, i, tier))
     # pipelines over real transformers (oracle only)
     for i in range(36 if tier == "quick" else 300):
         tags = _Tags()
@@ -811,15 +1053,42 @@ def gen_cases(rng, tier):
                       "y": [v + 1 for v in _gen_values(rng, n)],
                       "fh": sorted(rng.sample([1, 2, 3], rng.choice([1, 2]))),
                       "ups": _gen_ups(rng, t0 + n - 1, allow_overlap=False)})
+        if i % 3 == 0:
+            c = cases[-1]
+            c["fh"], c["pfh"] = _gen_pfh(rng, spec, c["fh"], len(c["ups"]))
     return cases
+
+
+def _drop_up(c, i):
+    d = dict(c)
+    d["ups"] = c["ups"][:i] + c["ups"][i + 1:]
+    if c.get("pfh"):
+        d["pfh"] = c["pfh"][:i + 1] + c["pfh"][i + 2:]
+    return d
 
 
 def shrink(case):
     c = dict(case)
+    if c.get("pre"):
+        # only the histories are shortened: the two configurations belong together
+        pre = c["pre"]
+        for i in range(len(pre["ups"])):
+            d = dict(c)
+            d["pre"] = _drop_up(pre, i)
+            yield d
+        for i in range(len(c["ups"])):
+            yield _drop_up(c, i)
+        if pre["mode"] != "nested":
+            d = dict(c)
+            d["pre"] = dict(pre, mode="nested")
+            yield d
+        return
     ups = c["ups"]
     for i in range(len(ups)):
+        yield _drop_up(c, i)
+    if c.get("pfh") and c["fh"] is not None:
         d = dict(c)
-        d["ups"] = ups[:i] + ups[i + 1:]
+        del d["pfh"]
         yield d
     spec = c["spec"]
     # replace the composite by one of its composite children
@@ -847,7 +1116,7 @@ def shrink(case):
             s["ts"] = spec["ts"][:i] + spec["ts"][i + 1:]
             d["spec"] = s
             yield d
-    if len(c["fh"]) > 1:
+    if c["fh"] is not None and len(c["fh"]) > 1 and not c.get("pfh"):
         for i in range(len(c["fh"])):
             d = dict(c)
             d["fh"] = c["fh"][:i] + c["fh"][i + 1:]
@@ -944,7 +1213,20 @@ def _cinputs(case):
     ups = clist(["(%s, %s)" % (
         clist(["(%s, %s)" % (cz(t0 + i), cq(float(v))) for i, v in enumerate(vals)]), cbool(up))
         for t0, vals, up in case["ups"]])
+    if case.get("pfh"):
+        return "%s %s %s %s" % (_cspec(case["spec"]), y, ups,
+                                clist([czlist(h) for h in _eff_fh(case)]))
     return "%s %s %s %s" % (_cspec(case["spec"]), y, czlist(case["fh"]), ups)
+
+
+def _eff_fh(case):
+    """the horizon in force at each predict: the one handed over, else the last one handed over
+    before (at fit or at an earlier predict)"""
+    cur, eff = case["fh"], []
+    for h in case["pfh"]:
+        cur = h if h is not None else cur
+        eff.append(cur)
+    return eff
 
 
 def _has_nan(out):
@@ -959,13 +1241,13 @@ def coq_case(case, out):
         return None
     steps = clist(["(%s, %s)" % (_cser(s["pred"]), clist([_cev(e) for e in s["trace"]]))
                    for s in out["impl"]])
-    return "CRun %s %s" % (_cinputs(case), steps)
+    return "%s %s %s" % ("CRunH" if case.get("pfh") else "CRun", _cinputs(case), steps)
 
 
 def coq_model_term(case):
     if not _modelled(case["spec"]):
         return "tt"
-    return "c_run %s" % _cinputs(case)
+    return "%s %s" % ("c_run_h" if case.get("pfh") else "c_run", _cinputs(case))
 
 
 def distribution(cases, results):
@@ -979,4 +1261,8 @@ def distribution(cases, results):
         if any(u[0] <= c["t0"] + len(c["y"]) - 1 for u in c["ups"][:1]):
             d["first-update-overlaps"] += 1
         d["in-coq" if ("impl" in o and _modelled(c["spec"])) else "oracle-only"] += 1
+        if c.get("pre"):
+            d["reconfigured-by-" + c["pre"]["mode"]] += 1
+        if c.get("pfh"):
+            d["horizon-at-predict" + (":none-at-fit" if c["fh"] is None else "")] += 1
     return dict(d)
